@@ -141,12 +141,14 @@ def _invariance(seed):
     and the batched call must agree bit for bit - including pairs whose difference lies exactly on a facet."""
     import itertools
     import numpy as np
-    from vopy.order import ConeOrder3D, ConeOrder3DIceCream, ConeTheta2DOrder, PolyhedralConeOrder
+    from vopy.order import ComponentwiseOrder, ConeOrder3D, ConeOrder3DIceCream, ConeTheta2DOrder, PolyhedralConeOrder
     from vopy.ordering_cone import OrderingCone
     rs = np.random.RandomState(seed)
     bad = []
     n = 0
-    orders = [("acute3d", ConeOrder3D("acute"), [[1, -2, 4], [4, 1, -2], [-2, 4, 1]]), ("obtuse3d", ConeOrder3D("obtuse"), [[5, 2, 8], [8, 5, 2], [2, 8, 5]]),
+    orders = [("componentwise2", ComponentwiseOrder(2), [[1, 0], [0, 1]]), ("componentwise3", ComponentwiseOrder(3), [[1, 0, 0], [0, 1, 0], [0, 0, 1]]),
+              ("componentwise4", ComponentwiseOrder(4), None), ("right3d", ConeOrder3D("right"), [[1, 0, 0], [0, 1, 0], [0, 0, 1]]),
+              ("acute3d", ConeOrder3D("acute"), [[1, -2, 4], [4, 1, -2], [-2, 4, 1]]), ("obtuse3d", ConeOrder3D("obtuse"), [[5, 2, 8], [8, 5, 2], [2, 8, 5]]),
               ("theta60", ConeTheta2DOrder(60), None), ("theta135", ConeTheta2DOrder(135), None), ("ice45-6", ConeOrder3DIceCream(45, 6), None)]
     for Wi in ([[3, -1], [-1, 2]], [[3, 5], [5, 3]], [[1, 3, -1], [-1, 2, 3], [5, -1, 1]]):
         Wn = np.array(Wi, dtype=float)
@@ -159,7 +161,7 @@ def _invariance(seed):
         if Wint is not None:      # make sure exact-boundary differences are present
             bd = [v for v in lat if any(sum(w[k] * v[k] for k in range(d)) == 0 for w in Wint) and np.any(v != 0)]
             diffs += [bd[i] for i in rs.choice(len(bd), size=min(len(bd), 120), replace=False)]
-        bases = [np.zeros(d), np.array([0.625, -3.875, -0.5][:d]), np.array([1024.5, -7.25, 3.0][:d]), -np.array([0.375, 2.125, 40.5][:d])]
+        bases = [np.zeros(d), np.array([0.625, -3.875, -0.5, 2.25][:d]), np.array([1024.5, -7.25, 3.0, -0.125][:d]), -np.array([0.375, 2.125, 40.5, 6.0][:d])]
         A = []
         B = []
         single = []
@@ -183,6 +185,22 @@ def _invariance(seed):
                 bad.append({"kind": "reflexive", "cone": name, "a": dv.tolist()})
         try:
             batched = [bool(x) for x in np.asarray(order.dominates(np.array(A), np.array(B))).reshape(-1)]
+            if len(batched) != len(single):
+                bad.append({"kind": "batched-shape", "cone": name, "pairs": len(single), "decisions": len(batched)})
+                continue
+            # (N, d) against one vector: one decision per row as well
+            nb = len(bases)
+            for bi, b in enumerate(bases[:2]):
+                rows_b = [i for i in range(len(single)) if i % nb == bi]
+                got = [bool(x) for x in np.asarray(order.dominates(np.array([A[i] for i in rows_b]), b)).reshape(-1)]
+                if len(got) != len(rows_b):
+                    bad.append({"kind": "batched-shape", "cone": name, "form": "(N,d) vs (d,)", "pairs": len(rows_b), "decisions": len(got)})
+                    break
+                wrong = [i for g, i in zip(got, rows_b) if g != single[i] and not onbd[i]]
+                if wrong:
+                    k = wrong[0]
+                    bad.append({"kind": "batched-vs-single", "cone": name, "form": "(N,d) vs (d,)", "a": A[k].tolist(), "b": B[k].tolist(), "single": single[k], "batched": not single[k]})
+                    break
             diff_idx = [i for i in range(len(single)) if batched[i] != single[i] and not onbd[i]]
             if diff_idx:
                 k = diff_idx[0]
@@ -264,7 +282,7 @@ def replay(body):
             if all(w[0] * v[0] + w[1] * v[1] >= 0 for w in c["W"]):
                 inside.add(v)
         return not _replay_order([(c["W"], inside, G)])
-    if c["kind"] in ("translation-invariance", "batched-vs-single", "reflexive", "batched-exception"):
+    if c["kind"] in ("translation-invariance", "batched-vs-single", "reflexive", "batched-exception", "batched-shape"):
         return not _invariance(0)[1]
     n, bad = _bundled(0)
     return not bad
